@@ -76,13 +76,18 @@ SymInvs(ev) ==
 \* (identifies the known finding K20; every other regime has no tag)
 Min3(x, y, z) == Min2(x, Min2(y, z))
 Mid3(x, y, z) == Max2(Min2(x, y), Min2(Max2(x, y), z))
+Strained(p, q, r) ==
+  /\ IsFin(p) /\ IsFin(q) /\ IsFin(r) /\ p.s > 0 /\ q.s > 0 /\ r.s > 0
+  /\ LET mn == Min3(p, q, r)  md == Mid3(p, q, r)  mx == Max3(p, q, r)
+     IN /\ Lt(Mul(OfInt(100000), mn), Mul(OfInt(22), mx)) /\ Le(Mul(OfInt(22), mx), Mul(OfInt(100000), md))
+        /\ Lt(Sq(Sub(mx, md)), Mul(OfInt(100), Mul(mn, mx)))
+\* f_CSd, f_CSu evaluate Phi(xd, xu, 1); FCWu, FCWd evaluate it for (xu, xd) and for (yu, yd): the same call of Phi
 RegimeTag(ev) ==
-  IF ev.fn \in {"Phi", "Phi_over_lambda_2"} /\ \A i \in 1..3 : IsFin(ev.a[i]) /\ ev.a[i].s > 0
-  THEN LET mn == Min3(ev.a[1], ev.a[2], ev.a[3])  md == Mid3(ev.a[1], ev.a[2], ev.a[3])  mx == Max3(ev.a[1], ev.a[2], ev.a[3])
-       IN IF /\ Lt(Mul(OfInt(100000), mn), Mul(OfInt(22), mx)) /\ Le(Mul(OfInt(22), mx), Mul(OfInt(100000), md))
-             /\ Lt(Sq(Sub(mx, md)), Mul(OfInt(100), Mul(mn, mx)))
-          THEN "/strained" ELSE ""
-  ELSE ""
+  IF CASE ev.fn \in {"Phi", "Phi_over_lambda_2"} -> Strained(ev.a[1], ev.a[2], ev.a[3])
+       [] ev.fn \in {"f_CSd", "f_CSu"} -> Strained(ev.a[1], ev.a[2], One)
+       [] ev.fn \in {"FCWu", "FCWd"} -> Strained(ev.a[1], ev.a[2], One) \/ Strained(ev.a[3], ev.a[4], One)
+       [] OTHER -> FALSE
+  THEN "/strained" ELSE ""
 
 Init == l = 1 /\ base = None /\ viol = << >> /\ nchecked = 0
 
